@@ -157,12 +157,12 @@ def numeric_digest(app):
         d[f"vis{eid}"] = np.asarray(eng.visibility_matrix, float).ravel()
         d[f"rew{eid}"] = np.asarray(eng.reward_matrix, float).ravel()
         d[f"dec{eid}"] = np.asarray(eng.decision_matrix, float).ravel()
-        obs = sorted(eng.observations, key=lambda o: (o.target_id, o.sensor_id))
-        vals = []
-        for o in obs:
-            vals += [o.target_id, o.sensor_id] + [float(x) for x in
-                                                  (o.azimuth_rad, o.elevation_rad, o.range_km, o.range_rate_km_p_sec)
-                                                  if x is not None]
+        # the BAG of observations is the result: one (target, sensor) pair can occur twice in a step (tasked and
+        # serendipitous under the all-visible policy), so the values take part in the canonical order
+        rows = sorted([o.target_id, o.sensor_id] + [float(x) for x in
+                                                     (o.azimuth_rad, o.elevation_rad, o.range_km, o.range_rate_km_p_sec)
+                                                     if x is not None] for o in eng.observations)
+        vals = [v for row in rows for v in row]
         d[f"obs{eid}"] = np.asarray(vals, float)
     return d
 
@@ -264,7 +264,7 @@ def _tla_set(xs):
 
 
 FLAGS = ["ResetChangesPerJob", "MissListSquared", "KeepMissedAcrossSteps", "PriorityToAllEngines", "PruneKeepsEqual",
-         "PartialCommit", "UpdateTouchesTruth"]
+         "PartialCommit", "UpdateTouchesTruth", "LastMergeWins"]
 
 
 def trace_module(g: dict) -> tuple[str, str]:
@@ -282,6 +282,7 @@ def trace_module(g: dict) -> tuple[str, str]:
         f'[id |-> {json.dumps(m["id"])}, kind |-> {json.dumps(m["kind"])}, t0 |-> {m["t0"]}, t1 |-> {m["t1"]}, '
         f'who |-> {json.dumps(m["who"])}, eng |-> {json.dumps(m["eng"])}, tgt |-> {json.dumps(m["tgt"])}, '
         f'planned |-> {B(m["planned"])}]' for m in g["events"])
+    rank = " [] ".join(f't = {json.dumps(t)} -> {i + 1}' for i, t in enumerate(sorted(g['targets'], key=lambda x: int(x[1:])))) or 't = "" -> 0'
     mod = f"""---- MODULE TraceMC ----
 EXTENDS TraceResonaate
 cT == {_tla_set(g['targets'])}
@@ -293,6 +294,7 @@ cET == {fn('targets')}
 cES == {fn('sensors')}
 cPol == [e \\in cE |-> {('CASE ' + pol) if engs else '"none"'}]
 cEvents == {{{evs}}}
+cRank == [t \\in cT |-> CASE {rank} [] OTHER -> 0]
 ====
 """
     f = g.get("flags") or {}
@@ -307,6 +309,7 @@ CONSTANTS
   EngSensors <- cES
   Policy <- cPol
   Events <- cEvents
+  TRank <- cRank
   NSteps = {g['nsteps']}
   SpanSteps = {g.get('span', g['nsteps'])}
   Dt = {g['dt']}
